@@ -135,6 +135,11 @@ pub fn run(ctx: &Ctx) -> i32 {
                     // the same count-changing edit applied twice can cancel itself (+1 then -1)
                     continue;
                 }
+                if r1 == Rule::DeclaredReturnType || r2 == Rule::DeclaredReturnType {
+                    // changing the declared return type can make a second edit (another returned
+                    // value, another annotation of the bound result) well-typed again
+                    continue;
+                }
                 let (_, s1) = mutate::apply(&prog, r1, usize::MAX, &mut rng);
                 if s1 == 0 {
                     continue;
